@@ -375,6 +375,33 @@ def check_C08(report, tier, seed, replay=None):
             report.violation("after a failed write of %r the next call (%s) put %r on the wire (strict parse: %s, expected %s)"
                              % (op1, "connect" if reconnect else repr(op2), sent, parsed, expect),
                              {"property": "C08", "op": [repr(x) for x in op1], "sent": hx(sent), "history": "write fault, then next call"})
+    # a value that cannot be encoded (a lone surrogate in a name): the call fails, and whatever it did must not leak into
+    # the next call -- everything written on the connection by the two calls together is exactly the second command
+    bad_values = [b"report\xff", b"\xff", b"a\xc3", b"ok \xed\xa0\x80 x", b"\x80abc"]
+    bad_ops = [lambda v: ("setactive", v), lambda v: ("deletescript", v), lambda v: ("getscript", v), lambda v: ("havespace", v, 10),
+               lambda v: ("putscript", v, b"keep;\r\n"), lambda v: ("renamescript", v, b"new"), lambda v: ("renamescript", b"old", v),
+               lambda v: ("putscript", b"name", v), lambda v: ("checkscript", v)]
+    for i in range(45 if tier == "quick" else 450):
+        bv = bad_values[i % len(bad_values)]
+        op1 = bad_ops[i % len(bad_ops)](bv)
+        v = gen_value(rng).encode()
+        op2, want2 = (("getscript", v), ("GETSCRIPT", ["s:" + hx(v)])) if i % 2 else (("deletescript", v), ("DELETESCRIPT", ["s:" + hx(v)]))
+        sess = I.canned_session([b"OK\r\n", b"OK\r\n"], version=True)
+        out1, _ = sess.call(op1)
+        out2, _ = sess.call(op2)
+        sent = b"".join(e[3] for e in sess.net.log if e[0] == "S")
+        sess.close()
+        report.case(("unencodable", op1, i), True, {"op": repr(op1), "then": repr(op2), "sent": repr(sent)[:160]})
+        report.count("op:after-unencodable-value")
+        if not out1.startswith("F:"):
+            report.count("unencodable-value-accepted")
+            continue                 # the client found a way to send it: the strict-parse oracle of the first section applies elsewhere
+        parsed = drv.ask("parse_cmd " + hx(sent))
+        expect = "cmd %s %s rest=x" % (hx(want2[0].encode()), ",".join(want2[1]))
+        if parsed != expect:
+            report.violation("after a call that failed on a value it could not encode (%r) the connection carries %r: not exactly the next command %r (strict parse: %s)"
+                             % (op1, sent, op2, parsed),
+                             {"property": "C08", "op": [repr(x) for x in op1], "sent": hx(sent), "history": "unencodable value, then next call"})
     drv.close()
 
 
